@@ -16,6 +16,8 @@ import (
 	"encoding/json"
 	"fmt"
 	"hash/fnv"
+	"io"
+	"log"
 	"math"
 	"math/big"
 	"os"
@@ -99,6 +101,22 @@ type c08Meta struct {
 // C08-dup-tail-same-root: a body that appends copies of trailing transactions so that the self-pairing
 // merkle tree yields the unchanged root; VerifyBlock never compares TxCount (hashed) with the body length.
 const c08FDupTail = "C08-dup-tail-same-root"
+
+// C08-offcurve-pubkey-panics: a Pubkey that parses as a P-256 key but is no curve point makes VerifyBlock
+// panic in the address<->key binding (elliptic.Marshal) once id and merkle root match, instead of refusing.
+const c08FOffCurve = "C08-offcurve-pubkey-panics"
+
+// c08OffCurve: the pubkey bytes parse as a key of the supported curve, but (X,Y) is not a point of it.
+func c08OffCurve(pub []byte) bool {
+	k, err := hx.Crypt.GetEcdsaPublicKeyFromJsonStr(string(pub))
+	if err != nil || k == nil {
+		return false
+	}
+	if k.X == nil || k.Y == nil {
+		return true
+	}
+	return !k.Curve.IsOnCurve(k.X, k.Y)
+}
 
 // c08Exclude: root causes whose trigger shape is dropped by the generator (set from the witness probes).
 var c08Exclude = map[string]bool{}
@@ -395,7 +413,7 @@ func (b *c08Built) mutations() []c08Mut {
 	}
 	for _, k := range []string{"version:+1", "version:hi", "nonce:+1", "nonce:hi", "txcount:+1", "txcount:-1",
 		"proposer:other", "proposer:trunc", "proposer:nil", "timestamp:+1", "timestamp:-1", "timestamp:hi",
-		"pubkey:other", "pubkey:case", "pubkey:space", "prehash:trunc", "prehash:nil",
+		"pubkey:other", "pubkey:case", "pubkey:space", "pubkey:offcurve", "prehash:trunc", "prehash:nil",
 		"term:+1", "term:hi", "num:+1", "num:hi", "bits:change", "bits:zero", "failed:add",
 		"qc:nil", "qc:new", "qc:pid:append", "qc:pid:nil", "qc:msg:append", "qc:msg:nil", "qc:type", "qc:view"} {
 		hdr(k, 0, 0)
@@ -537,6 +555,9 @@ func (b *c08Built) mutHeader(m *pb.InternalBlock, mu c08Mut) bool {
 		m.Pubkey[i+1] = 'x'
 	case "pubkey:space":
 		m.Pubkey = append(append([]byte{}, m.Pubkey...), ' ')
+	case "pubkey:offcurve": // X+1 with the same Y: well-formed key JSON, not a point of the curve
+		pk := &b.key.Priv.PublicKey
+		m.Pubkey = []byte(fmt.Sprintf(`{"Curvname":"P-256","X":%s,"Y":%s}`, new(big.Int).Add(pk.X, big.NewInt(1)).String(), pk.Y.String()))
 	case "prehash:flip":
 		m.PreHash = c08Flip(m.PreHash, mu.I)
 	case "prehash:trunc":
@@ -953,6 +974,9 @@ func (b *c08Built) apply(mu c08Mut) (m *pb.InternalBlock, meta c08Meta, ok bool)
 	default:
 		return nil, meta, false
 	}
+	if mu.V != "stale" && len(kind) > 7 && kind[:7] == "pubkey:" && c08OffCurve(m.Pubkey) {
+		meta.finding = c08FOffCurve // id and merkle root match: the binding step is reached with a non-point
+	}
 	return m, meta, true
 }
 
@@ -1257,6 +1281,9 @@ func c08Witnesses() map[string][2]interface{} {
 		// [a,b,c] -> [a,b,c,c]: same self-pairing merkle root, TxCount stays 3, id and signature untouched
 		c08FDupTail: {c08Shape{Fmt: "miner", NTx: 3, TxTag: "w", Key: 0, TS: 1, Salt: []int{0}},
 			c08Mut{K: "body:dup-tail", V: "body-only", I: 1}},
+		// Pubkey = (X+1, Y) of the proposer's key, id recomputed: VerifyBlock must refuse, not panic
+		c08FOffCurve: {c08Shape{Fmt: "miner", NTx: 1, TxTag: "w", Key: 0, TS: 1, Salt: []int{0}},
+			c08Mut{K: "pubkey:offcurve", V: "reid"}},
 	}
 }
 
@@ -1270,6 +1297,9 @@ func TestC08(t *testing.T) {
 		"CheckMinerMatch of the pluggable consensus is covered by C16")
 	defer c.Flush(t)
 	fs := hx.LoadFindings()
+	// xuperchain/crypto reports unparsable keys through the std logger: thousands of lines for the pubkey mutants
+	log.SetOutput(io.Discard)
+	defer log.SetOutput(os.Stderr)
 
 	lo, err := hx.NewLedgerOnly(hx.DefaultOpts())
 	if err != nil {
@@ -1287,7 +1317,7 @@ func TestC08(t *testing.T) {
 			f()
 		}
 	}()
-	for _, id := range []string{c08FDupTail} {
+	for _, id := range []string{c08FDupTail, c08FOffCurve} {
 		id, w := id, wit[id]
 		werr := evalC08(w[0].(c08Shape), w[1].(c08Mut))
 		trace := []interface{}{w[0], w[1]}
@@ -1316,7 +1346,7 @@ func TestC08(t *testing.T) {
 		}
 	}
 
-	c.Check(t, "block-mutations", hx.N(2000, 40000), func(cs *hx.Case) {
+	c.Check(t, "block-mutations", hx.N(1500, 26000), func(cs *hx.Case) {
 		rt := cs.RT()
 		shape := c08GenShape(rt)
 		cs.Op(shape)
